@@ -155,6 +155,38 @@ class Rec:
                  "extra")
 
 
+class ShortReads(io.BufferedIOBase):
+    """Seekable in-memory stream that hands out at most 1500 bytes per read()."""
+
+    def __init__(self, data, chunk=1500):
+        self._b, self._chunk = io.BytesIO(data), chunk
+
+    def read(self, size=-1):
+        if size is None or size < 0:
+            return self._b.read()
+        return self._b.read(min(size, self._chunk))
+
+    def read1(self, size=-1):
+        return self.read(size)
+
+    def readinto(self, b):
+        data = self.read(len(b))
+        b[:len(data)] = data
+        return len(data)
+
+    def readable(self):
+        return True
+
+    def seekable(self):
+        return True
+
+    def seek(self, pos, whence=0):
+        return self._b.seek(pos, whence)
+
+    def tell(self):
+        return self._b.tell()
+
+
 # symbolic pids: "a pid that is also the path of an existing regular file" (two twin files with equal content).
 # The token is replaced by the absolute path of the file at execution time; {"op": "pidfile", "i", "what"} edits /
 # removes / re-creates the file the pid names (the store must not care: identifiers are opaque strings).
@@ -169,6 +201,12 @@ class Run:
         self.cfg = Cfg.from_json(case.get("cfg"))
         self.work = ctx.scratch("seq")
         self.root = root or os.path.join(self.work, "store")
+        self.open_path = self.root
+        if case.get("root_via") == "symlink" and root is None:
+            # the store is opened through a symbolic link to its directory (a non-canonical store path)
+            os.makedirs(self.root, exist_ok=True)
+            self.open_path = os.path.join(self.work, "link-to-store")
+            os.symlink(self.root, self.open_path)
         self.src = os.path.join(self.work, "src")
         os.makedirs(self.src, exist_ok=True)
         self.contents = [common.make_content(d) for d in case.get("contents", [])]
@@ -178,7 +216,7 @@ class Run:
         self.dpaths = [common.write_file(os.path.join(self.src, f"d{i}"), b)
                        for i, b in enumerate(self.docs)]
         self.pidfiles = [common.write_file(os.path.join(self.src, f"pidfile{i}"), b"twin pid file\n") for i in range(2)]
-        self.factory = store_factory or (lambda: common.make_store(self.root, self.cfg))
+        self.factory = store_factory or (lambda: common.make_store(self.open_path, self.cfg))
         # the current directory of the process holds DECOY files named like the cids the history uses (checksum-named partial
         # exports are common in practice): whatever a content identifier happens to name relative to the current directory
         # must never be read, served or removed by the store.  (The case runs with this directory as the process's current directory.)
@@ -231,6 +269,12 @@ class Run:
             f = gzip.GzipFile(gz, "rb")
             f.seek(min(offset, len(blobs[idx])))
             self.open_streams.append(f)
+            return f, f
+        if kind == "shortreads":
+            # a buffered binary stream whose read(n) returns FEWER than n bytes although more will follow (legal for
+            # io.BufferedIOBase implementations over interactive / network sources): only an EMPTY read means end of stream
+            f = ShortReads(blobs[idx])
+            f.seek(min(offset, len(blobs[idx])))
             return f, f
         if kind == "relpath":
             # a path RELATIVE to the current directory (the step changes into the directory of the file for the call)
